@@ -431,40 +431,15 @@ func (a Int) M__truediv__(other Object) (Object, error) {
 	if b, ok := convertToInt(other); ok {
 		return a.trueDiv(b)
 	}
-	if _, ok := other.(*BigInt); ok {
-		// done exactly by the reflected method of BigInt
-		return NotImplemented, nil
-	}
-	b, err := MakeFloat(other)
-	if err != nil {
-		return nil, err
-	}
-	fa := Float(a)
-	fb := b.(Float)
-	if fb == 0 {
-		return nil, divisionByZero
-	}
-	return Float(fa / fb), nil
+	// BigInt, Float and Complex do it in their reflected method
+	return NotImplemented, nil
 }
 
 func (a Int) M__rtruediv__(other Object) (Object, error) {
 	if b, ok := convertToInt(other); ok {
 		return b.trueDiv(a)
 	}
-	if _, ok := other.(*BigInt); ok {
-		// done exactly by the reflected method of BigInt
-		return NotImplemented, nil
-	}
-	b, err := MakeFloat(other)
-	if err != nil {
-		return nil, err
-	}
-	fa := Float(a)
-	fb := b.(Float)
-	if fa == 0 {
-		return nil, divisionByZero
-	}
-	return Float(fb / fa), nil
+	return NotImplemented, nil
 }
 
 func (a Int) M__itruediv__(other Object) (Object, error) {
